@@ -32,11 +32,13 @@ struct Args {
     init: Vec<u32>,
     mute: Vec<u32>,
     verbose: bool,
+    /// scripts whose last element is an operation of this kind are never sampled away
+    keep_last: String,
 }
 
 fn parse_args() -> Args {
     let a: Vec<String> = std::env::args().collect();
-    let mut r = Args { threads: 8, seed: 1, sample: 0, index_base: 0, timeout_s: 1, init: vec![0, 1], mute: vec![], verbose: false };
+    let mut r = Args { threads: 8, seed: 1, sample: 0, index_base: 0, timeout_s: 1, init: vec![0, 1], mute: vec![], verbose: false, keep_last: String::new() };
     let list = |s: &str| -> Vec<u32> { s.split(',').filter(|x| !x.is_empty()).map(|x| x.parse().expect("worker id")).collect() };
     let mut i = 1;
     while i < a.len() {
@@ -49,6 +51,7 @@ fn parse_args() -> Args {
             "--init" => { r.init = list(&a[i + 1]); i += 1; }
             "--mute" => { r.mute = list(&a[i + 1]); i += 1; }
             "--verbose" => r.verbose = true,
+            "--keep-last" => { r.keep_last = a[i + 1].clone(); i += 1; }
             _ => {}
         }
         i += 1;
@@ -228,13 +231,20 @@ fn main() {
     }
     let total = lines.len();
     if args.sample > 0 && lines.len() > args.sample {
-        // seeded sample without replacement
+        // seeded sample without replacement (plus every script ending in a `keep_last` operation)
+        let ends_with = |l: &Value| -> bool {
+            !args.keep_last.is_empty()
+                && l["script"].as_array().and_then(|a| a.last()).map(|e| e["op"]["kind"] == args.keep_last.as_str()).unwrap_or(false)
+        };
+        let (kept, mut rest): (Vec<Value>, Vec<Value>) = lines.into_iter().partition(|l| ends_with(l));
         let mut rng = Rng(args.seed.wrapping_mul(0x9E3779B97F4A7C15) | 1);
-        for i in (1..lines.len()).rev() {
+        for i in (1..rest.len()).rev() {
             let j = rng.next(i + 1);
-            lines.swap(i, j);
+            rest.swap(i, j);
         }
-        lines.truncate(args.sample);
+        rest.truncate(args.sample);
+        lines = kept;
+        lines.extend(rest);
     }
     let lines = Arc::new(lines);
     let next = Arc::new(AtomicUsize::new(0));
